@@ -92,8 +92,14 @@ def search(res, tier, seed, deep=False):
                 n1, n2, n3 = r.randint(60, 150), r.randint(60, 150), r.randint(60, 150)
                 def mk(n, sh):
                     x = lo + (hi - lo) * np.clip(rs.beta(2, 3, n) + sh, 0, 1)
-                    if d.has_lower_threshold: x[rs.rand(n) < 0.25] = lo
-                    if d.has_upper_threshold: x[rs.rand(n) < 0.15] = hi
+                    if d.has_lower_threshold:
+                        x[rs.rand(n) < 0.25] = lo
+                        k = rs.rand(n) < 0.12       # values strictly between the bound and its threshold (drizzle)
+                        x[k] = d.lower_bound + rs.rand(k.sum()) * (d.lower_threshold - d.lower_bound)
+                    if d.has_upper_threshold:
+                        x[rs.rand(n) < 0.15] = hi
+                        k = rs.rand(n) < 0.08
+                        x[k] = d.upper_bound - rs.rand(k.sum()) * (d.upper_bound - d.upper_threshold)
                     return x
                 oh, ch, cf = mk(n1, 0), mk(n2, 0.1), mk(n3, 0.15)
                 np.random.seed(rnd)
